@@ -27,11 +27,20 @@ Individual elements of the vec don't have to be deallocated as they are u8.
 
 static DECOMPRESSION_POOL: OnceLock<rayon::ThreadPool> = OnceLock::new();
 
+// What the decoding thread has published: how many bytes are decoded
+// and whether it stopped before the end (corrupted or truncated compressed stream).
+struct Progress {
+    decoded: usize,
+    failed: bool,
+}
+
+type SharedProgress = Arc<(Mutex<Progress>, Condvar)>;
+
 struct SyncVecWr {
     _arc: Arc<Vec<u8>>,
     data: ManuallyDrop<Vec<u8>>,
     total_size: usize,
-    decoded: Arc<(Mutex<usize>, Condvar)>,
+    decoded: SharedProgress,
 }
 
 unsafe impl Send for SyncVecWr {}
@@ -40,27 +49,35 @@ struct SyncVecRd {
     _arc: Arc<Vec<u8>>,
     buffer: *const u8,
     total_size: usize,
-    decoded: Arc<(Mutex<usize>, Condvar)>,
+    decoded: SharedProgress,
 }
 
 unsafe impl Send for SyncVecRd {}
 unsafe impl Sync for SyncVecRd {}
 
 impl SyncVecRd {
+    /// Wait until `end` bytes are decoded.
+    /// Return an error if the decoder has stopped before.
     #[inline]
-    pub fn wait_while<F>(&self, function: F) -> usize
-    where
-        F: Fn(&mut usize) -> bool,
-    {
+    pub fn wait_for(&self, end: usize) -> std::io::Result<()> {
         let (lock, cvar) = &*self.decoded;
-        let decoded = cvar.wait_while(lock.lock().unwrap(), function).unwrap();
-        *decoded
+        let progress = cvar
+            .wait_while(lock.lock().unwrap(), |p| p.decoded < end && !p.failed)
+            .unwrap();
+        if progress.decoded < end {
+            Err(std::io::Error::new(
+                std::io::ErrorKind::InvalidData,
+                "Cannot decompress data",
+            ))
+        } else {
+            Ok(())
+        }
     }
 
     #[inline]
     pub fn current_size(&self) -> usize {
         let (lock, _cvar) = &*self.decoded;
-        *lock.lock().unwrap()
+        lock.lock().unwrap().decoded
     }
 
     #[inline]
@@ -77,7 +94,13 @@ impl SyncVecRd {
 
 fn create_sync_vec(size: usize) -> (SyncVecWr, SyncVecRd) {
     let buffer = Arc::new(Vec::with_capacity(size));
-    let decoded = Arc::new((Mutex::new(0), Condvar::new()));
+    let decoded = Arc::new((
+        Mutex::new(Progress {
+            decoded: 0,
+            failed: false,
+        }),
+        Condvar::new(),
+    ));
     let buffer_ptr = buffer.as_ptr();
     let rd = SyncVecRd {
         _arc: Arc::clone(&buffer),
@@ -113,13 +136,18 @@ fn decode_to_end<T: Read + Send>(
         let size = std::cmp::min(total_size - uncompressed, chunk_size);
         //  println!("decompress {size}");
 
-        uncompressed += decoder
+        let read = decoder
             .by_ref()
             .take(size as u64)
             .read_to_end(&mut buffer.data)?;
+        if read == 0 {
+            // The stream ends before the announced size.
+            return Err(std::io::ErrorKind::UnexpectedEof.into());
+        }
+        uncompressed += read;
         let (lock, cvar) = &*buffer.decoded;
-        let mut decoded = lock.lock().unwrap();
-        *decoded = uncompressed;
+        let mut progress = lock.lock().unwrap();
+        progress.decoded = uncompressed;
         cvar.notify_all();
     }
     //println!("Decompress done");
@@ -139,14 +167,20 @@ impl SeekableDecoder {
                     .unwrap()
             })
             .spawn(move || {
-                decode_to_end(decoder, write_hand, 4 * 1024).unwrap();
+                let progress = Arc::clone(&write_hand.decoded);
+                if decode_to_end(decoder, write_hand, 4 * 1024).is_err() {
+                    // Tell the readers that nothing more will come.
+                    let (lock, cvar) = &*progress;
+                    lock.lock().unwrap().failed = true;
+                    cvar.notify_all();
+                }
             });
         Self { buffer: read_hand }
     }
 
     #[inline]
-    pub fn decode_to(&self, end: usize) {
-        self.buffer.wait_while(|d: &mut usize| *d < end);
+    pub fn decode_to(&self, end: usize) -> std::io::Result<()> {
+        self.buffer.wait_for(end)
     }
 
     #[inline]
@@ -164,7 +198,7 @@ impl Source for SeekableDecoder {
             offset.force_into_usize() + buf.len(),
             self.buffer.total_size(),
         );
-        self.decode_to(end);
+        self.decode_to(end)?;
         let mut slice = &self.decoded_slice()[offset.force_into_usize()..];
         Read::read(&mut slice, buf)
     }
@@ -177,7 +211,7 @@ impl Source for SeekableDecoder {
                 "Out of slice",
             ));
         }
-        self.decode_to(end);
+        self.decode_to(end)?;
         let slice = self.decoded_slice();
         assert!(end <= slice.len());
         buf.copy_from_slice(&self.decoded_slice()[o..end]);
@@ -195,7 +229,7 @@ impl Source for SeekableDecoder {
                 self.size()
             )));
         }
-        self.decode_to(region.end().force_into_usize());
+        self.decode_to(region.end().force_into_usize())?;
         Ok(Cow::Borrowed(
             &self.decoded_slice()
                 [region.begin().force_into_usize()..region.end().force_into_usize()],
